@@ -8,19 +8,19 @@ CHECK = dict(
              "goroutine running between pqueue's hook points (0-200 generated choices, then run-until-blocked), engine 2 on free goroutines "
              "(GOMAXPROCS 1/2/4/16, 10 executions per case). Non-trivial (engine 1) = the execution contained a cancellation racing with a "
              "release on the same queue (both enabled at one step, a select with both channels ready, or a slot handed to an already "
-             "cancelled waiter) or an AcquireMulti that met contention (rolled back or blocked); (engine 2) = a blocked waiter was really "
+             "cancelled waiter) or an AcquireMulti over >=2 queues that met contention (a TryAcquire refused -> rollback, or blocked on its first queue); (engine 2) = a blocked waiter was really "
              "cancelled or two workers multi-acquire intersecting sets. Distinct by (engine, queues, programs, schedule).",
         jobs=[REPLAY,
-              rapid("prop", "TestVerifProp", 160_000, 6_000_000, sq=8, st=16, shrinktime="10s"),
-              rapid("free", "TestVerifFree", 16_000, 400_000, sq=8, st=16,
+              rapid("prop", "TestVerifProp", 240_000, 12_000_000, sq=8, st=16, shrinktime="10s"),
+              rapid("free", "TestVerifFree", 20_000, 500_000, sq=8, st=16,
                     race=dict(quick=False, thorough=True), shrinktime="10s")],
         technique="property-based testing (rapid) of generated worker programs under (1) a schedule controller that owns every interleaving "
                   "point of internal/pqueue through build-tag hooks and (2) free-running goroutines with the race detector; oracles: "
                   "harness-side holder count, quiescence analysis (lost wake-up / deadlock), acquire result rules, final drain test",
         level_text="Generated-schedule search: every execution is checked for holder count <= limit at each admission, for a terminal state in "
-                   "which all workers finished (programs obey a lock hierarchy, so any stuck state is the queue's fault), for error-iff-cancelled "
-                   "results, and for exactly `limit` free slots per queue afterwards. Exploration, not proof: 1.6e5 (quick) to 6e6 (thorough) "
-                   "owned schedules plus 1.6e5 to 4e6 free-running executions.",
+                   "which all workers finished (programs obey a lock hierarchy, so any stuck state is the queue's fault), for acquire results (an error only "
+                   "with a cancelled context and then nothing held), and for exactly `limit` free slots per queue afterwards. Exploration, not "
+                   "proof: 2.4e5 (quick) to 1.2e7 (thorough) owned schedules plus 2e5 to 5e6 free-running executions (thorough: race detector).",
         level_note="Trusted: the lock-hierarchy argument that makes generated programs deadlock free (harness/c17/core.go canBlock); the hook "
                    "placement in internal/pqueue (no yield inside a critical section). Residual nondeterminism: Go's select when both the "
                    "wake-up and the cancellation are ready (such cases are executed 4 times, replays 50 times). Not asserted: admission order "
